@@ -763,3 +763,210 @@ Print Assumptions C05_fault_dollar_in_dollars_partial.
 Print Assumptions C05_fault_dollar_in_dollars_nested_partial.
 Print Assumptions C05_fault_opening_brace_in_groups_partial.
 Print Assumptions C05_fault_opening_brace_in_groups_math_partial.
+
+(** * Injected stray closing tokens over the EXTENDED grammar (proofs in [Proofs/Prefix2.v],
+    [Proofs/Fault2*.v])
+
+    [Doc/DocGrammar2.v]: the core grammar plus environments (with arguments, math-mode
+    bodies), specials, optional / star / single-token / verbatim arguments, verbatim macros
+    and environments.  PARTIAL: closing tokens only ([}], [\)], [\]], [\end{x}]); the side
+    conditions of the extended grammar are evaluated against the FOLLOW STRING, so the items
+    in front of the inserted token have to be well formed in front of everything that is
+    written after them (the whitespace [fws], the token and the rest [g] of the input, which
+    is otherwise ARBITRARY — in particular the rest of the document the token was inserted
+    into).  The error is the collector's error for that token ([stray_what]: 2 / 4 / 3),
+    located exactly at the token, the reader standing right after it, and it carries the
+    nodes of the items in front of it. *)
+From PLV Require Import Doc.DocGrammar2 Proofs.Prefix2.
+
+(** ** at an item boundary of the TOP-LEVEL body *)
+Theorem C05_fault_closing2_partial : forall cx l1 fws c g,
+  let ps0 := walker_state cx in
+  ok_items2 cx ps0 [] l1 (fws ++ stray_text c ++ g) = true ->
+  ws_ok fws = true -> stray_wf c ->
+  let q := (length (unparse_items2 l1) + length fws)%nat in
+  exists e,
+    parse_top (unparse_items2 l1 ++ fws ++ stray_text c ++ g) false cx ps0
+    = PErr e (q + length (stray_text c))%nat
+    /\ pe_pos e = Some q /\ pe_what e = stray_what c
+    /\ pe_nodes e = Some (gen_nodelist 0 (cs_acc (pre_flush ps0 (fst (absorb2 cx ps0 0 cs_empty l1)) fws
+                                                            (length (unparse_items2 l1))))).
+Proof. exact fault_closing2_top. Qed.
+
+(** the token appended to a whole extended document (the strict counterpart of
+    [C06_prefix_closing2_partial]): rejected at the token, with the tree of the document
+    as recovery nodes *)
+Theorem C05_fault_closing2_doc_partial : forall cx d c g,
+  ok_doc2_before cx d (stray_text c ++ g) = true -> stray_wf c ->
+  exists e,
+    parse_top (unparse2 d ++ stray_text c ++ g) false cx (walker_state cx)
+    = PErr e (length (unparse2 d) + length (stray_text c))%nat
+    /\ pe_pos e = Some (length (unparse2 d)) /\ pe_what e = stray_what c
+    /\ pe_nodes e = Some (gen_nodelist 0 (fst (tree_of2 cx (walker_state cx) 0 d))).
+Proof. exact fault_closing2_doc. Qed.
+
+(** non-vacuity: the extended document
+    [a \begin{center}b\section*[x]{y}\end{center} \sqrt{z} ] (an environment, a star, a written
+    and an absent optional argument); each of the four tokens inserted between the
+    environment and [ \sqrt{z} ] (offset 44, after one blank: 45), the rest of the document
+    being the arbitrary suffix *)
+Definition c05_doc2_l1 : list item2 :=
+  [Text2 [] [97];
+   Env2 [32] [] [99;101;110;116;101;114] []
+        [Text2 [] [98];
+         Mac2 [] [115;101;99;116;105;111;110] []
+              [Text2 [] [42]; Brk2 [] 91 93 [Text2 [] [120]] []; Grp2 [] [Text2 [] [121]] []]]
+        [] []].
+Definition c05_doc2_l2 : list item2 := [Mac2 [32] [115;113;114;116] [] [Abs2; Grp2 [] [Text2 [] [122]] []]].
+
+Example C05_fault_closing2_nonvacuous :
+  let cx := default_ctx in let ps0 := walker_state cx in
+  ok_doc2 cx {| d_items2 := c05_doc2_l1 ++ c05_doc2_l2; d_trail2 := [32] |} = true /\
+  length (unparse_items2 c05_doc2_l1) = 44%nat /\
+  forallb (fun c =>
+    let g := unparse_items2 c05_doc2_l2 ++ [32] in
+    ok_items2 cx ps0 [] c05_doc2_l1 ([32] ++ stray_text c ++ g) &&
+    match parse_top (unparse_items2 c05_doc2_l1 ++ [32] ++ stray_text c ++ g) false cx ps0 with
+    | PErr e p => Nat.eqb p (45 + length (stray_text c))%nat
+                  && match pe_pos e with Some q => Nat.eqb q 45%nat | None => false end
+                  && Nat.eqb (pe_what e) (stray_what c)
+    | _ => false
+    end)
+    [SBrace; SMClose MParen; SMClose MBracket; SEnd [122;113]] = true.
+Proof. vm_compute. repeat split. Qed.
+
+(** the same with [ok_doc2 cx d] as the hypothesis, for documents that end with whitespace in
+    contexts none of whose specials sequences contains a backslash or a closing brace
+    ([specials_plain]; see [C06_prefix_closing2_ws_partial], proofs in [Proofs/Prefix2Follow.v]) *)
+From PLV Require Import Proofs.Prefix2Follow.
+Theorem C05_fault_closing2_doc_ws_partial : forall cx d c g,
+  ok_doc2 cx d = true -> d_trail2 d <> [] -> specials_plain cx = true -> stray_wf c ->
+  exists e,
+    parse_top (unparse2 d ++ stray_text c ++ g) false cx (walker_state cx)
+    = PErr e (length (unparse2 d) + length (stray_text c))%nat
+    /\ pe_pos e = Some (length (unparse2 d)) /\ pe_what e = stray_what c
+    /\ pe_nodes e = Some (gen_nodelist 0 (fst (tree_of2 cx (walker_state cx) 0 d))).
+Proof. exact fault_closing2_doc_ws. Qed.
+
+(** ** at an item boundary of a NESTED body (proofs in [Proofs/Fault2Path.v],
+    [Proofs/Fault2Inject.v]).  The left context is a path of frames, outermost first
+    ([lframe2]): [LGrp2 before ws] = the extended items [before], whitespace, [{];
+    [LMath2 before ws k] = ... the opening delimiter of a formula of kind [k] (all four kinds);
+    [LEnv2 before ws bws name args] = ... [\begin bws {name}] and the environment's arguments
+    (written or absent optional arguments, star, delimited, single-token arguments included).
+    [lp_text2 path] is its text, [lp_state2 cx ps0 path] the parsing state of the innermost
+    body (math mode entered by formulas and by environments declared so), [ok_lpath2 cx ps0
+    path fol] the side conditions of every frame, evaluated against everything that is
+    written after it; [closes_hole2 path c = false]: the token is not the closing
+    delimiter of the innermost construct ([}] in a group, [\)] in [\( \)], [\]] in
+    [\[ \]], [\end{name}] in the body of [\begin{name}]). *)
+From PLV Require Import Proofs.Fault2Path Proofs.Fault2Inject.
+
+Theorem C05_fault_closing2_nested_partial : forall cx path l1 fws c g,
+  let ps0 := walker_state cx in
+  ok_lpath2 cx ps0 path (unparse_items2 l1 ++ fws ++ stray_text c ++ g) = true ->
+  ok_items2 cx (lp_state2 cx ps0 path) [] l1 (fws ++ stray_text c ++ g) = true ->
+  ws_ok fws = true -> stray_wf c -> closes_hole2 path c = false ->
+  let q := (length (lp_text2 path) + length (unparse_items2 l1) + length fws)%nat in
+  exists e,
+    parse_top (lp_text2 path ++ unparse_items2 l1 ++ fws ++ stray_text c ++ g) false cx ps0
+    = PErr e (q + length (stray_text c))%nat
+    /\ pe_pos e = Some q /\ pe_what e = stray_what c.
+Proof. exact fault_closing2_nested. Qed.
+
+(** ** at an item boundary of the body of a DELIMITED ARGUMENT [[ … ]] of a macro call that
+    is written in such a body: [bh_text before ws name post args1 aws oc] = the items [before]
+    the call, [ws \name post], the arguments [args1] in front of the delimited one, whitespace
+    [aws], the opening delimiter [oc]; [ok_brkhole] = its side conditions (the slot that follows
+    [args1] in the macro's signature is a delimited argument with the delimiters [oc] / [cc],
+    ...), [bh_state] the state the argument is parsed in.  No [closes_hole] condition: the
+    closing delimiter of the argument is a single character, none of the stray tokens. *)
+Theorem C05_fault_closing2_delimited_arg_partial : forall cx path before ws name post args1 aws oc cc l1 fws c g,
+  let ps0 := walker_state cx in
+  let hs := lp_state2 cx ps0 path in
+  let bt := bh_text before ws name post args1 aws oc in
+  let F := unparse_items2 l1 ++ fws ++ stray_text c ++ g in
+  ok_lpath2 cx ps0 path (bt ++ F) = true ->
+  ok_brkhole cx hs before ws name post args1 aws oc cc F = true ->
+  ok_items2 cx (bh_state cx hs name (length args1)) [oc; cc] l1 (fws ++ stray_text c ++ g) = true ->
+  ws_ok fws = true -> stray_wf c ->
+  let q := (length (lp_text2 path) + length bt + length (unparse_items2 l1) + length fws)%nat in
+  exists e,
+    parse_top (lp_text2 path ++ bt ++ F) false cx ps0
+    = PErr e (q + length (stray_text c))%nat
+    /\ pe_pos e = Some q /\ pe_what e = stray_what c.
+Proof. exact fault_closing2_brk. Qed.
+
+(** the machinery behind both: a parse error of the innermost collector propagates to the
+    outermost one — same position, same raise site — whatever follows *)
+Theorem C05_error_propagates2_partial : forall s cx path ps o st pos rest k e p,
+  StdE cx ps -> RoundTripRules.opts_ok ps o -> ok_lpath2 cx ps path rest = true ->
+  skipn pos s = lp_text2 path ++ rest ->
+  run s false cx k (TCollect (lp_state2 cx ps path) (lp_opts2 cx ps o path) (lp_st2 st path)
+                             (pos + length (lp_text2 path))%nat) = PErr e p ->
+  exists e', run s false cx (k + 8 * length (lp_text2 path))%nat (TCollect ps o st pos) = PErr e' p
+             /\ pe_pos e' = pe_pos e /\ pe_what e' = pe_what e.
+Proof. exact lpath_err2. Qed.
+
+(** non-vacuity.  Left context [\sqrt[3]{z} \begin{center}b{c \(] (an optional argument, an
+    environment, a group, a formula), items [x], a blank, the token (offset 34), the rest
+    [y\)}\end{center}] of the document as the arbitrary suffix: [}], [\]], [\end{zq}] and
+    [\end{center}] (which does not close the INNERMOST construct) are rejected at offset 34;
+    [\)] closes the hole ([closes_hole2 = true]) *)
+Definition c05_path2 : list lframe2 :=
+  [LEnv2 [Mac2 [] [115;113;114;116] [] [Brk2 [] 91 93 [Text2 [] [51]] []; Grp2 [] [Text2 [] [122]] []]]
+         [32] [] [99;101;110;116;101;114] [];
+   LGrp2 [Text2 [] [98]] [];
+   LMath2 [Text2 [] [99]] [32] MParen].
+Definition c05_rest2 : str := [121;92;41;125;92;101;110;100;123;99;101;110;116;101;114;125].
+
+Example C05_fault_closing2_nested_nonvacuous :
+  let cx := default_ctx in let ps0 := walker_state cx in
+  let l1 := [Text2 [] [120]] in
+  length (lp_text2 c05_path2) = 32%nat /\
+  closes_hole2 c05_path2 (SMClose MParen) = true /\
+  forallb (fun c =>
+    ok_lpath2 cx ps0 c05_path2 (unparse_items2 l1 ++ [32] ++ stray_text c ++ c05_rest2) &&
+    ok_items2 cx (lp_state2 cx ps0 c05_path2) [] l1 ([32] ++ stray_text c ++ c05_rest2) &&
+    negb (closes_hole2 c05_path2 c) &&
+    match parse_top (lp_text2 c05_path2 ++ unparse_items2 l1 ++ [32] ++ stray_text c ++ c05_rest2) false cx ps0 with
+    | PErr e p => Nat.eqb p (34 + length (stray_text c))%nat
+                  && match pe_pos e with Some q => Nat.eqb q 34%nat | None => false end
+                  && Nat.eqb (pe_what e) (stray_what c)
+    | _ => false
+    end)
+    [SBrace; SMClose MBracket; SEnd [122;113]; SEnd [99;101;110;116;101;114]] = true.
+Proof. vm_compute. repeat split. Qed.
+
+(** [a \begin{center}b \section*[] + [x] + the token (offset 29) + []{y}\end{center}]: the body of
+    the optional argument of [\section], after its star, inside an environment *)
+Example C05_fault_closing2_delimited_arg_nonvacuous :
+  let cx := default_ctx in let ps0 := walker_state cx in
+  let path := [LEnv2 [Text2 [] [97]] [32] [] [99;101;110;116;101;114] []] in
+  let hs := lp_state2 cx ps0 path in
+  let sec := [115;101;99;116;105;111;110] in
+  let bt := bh_text [Text2 [] [98]] [32] sec [] [Text2 [] [42]] [] 91 in
+  let l1 := [Text2 [] [120]] in
+  let g := [93;123;121;125;92;101;110;100;123;99;101;110;116;101;114;125] in
+  length (lp_text2 path ++ bt) = 28%nat /\
+  forallb (fun c =>
+    let F := unparse_items2 l1 ++ [] ++ stray_text c ++ g in
+    ok_lpath2 cx ps0 path (bt ++ F) &&
+    ok_brkhole cx hs [Text2 [] [98]] [32] sec [] [Text2 [] [42]] [] 91 93 F &&
+    ok_items2 cx (bh_state cx hs sec 1) [91;93] l1 ([] ++ stray_text c ++ g) &&
+    match parse_top (lp_text2 path ++ bt ++ F) false cx ps0 with
+    | PErr e p => Nat.eqb p (29 + length (stray_text c))%nat
+                  && match pe_pos e with Some q => Nat.eqb q 29%nat | None => false end
+                  && Nat.eqb (pe_what e) (stray_what c)
+    | _ => false
+    end)
+    [SBrace; SMClose MParen; SMClose MBracket; SEnd [122;113]] = true.
+Proof. vm_compute. repeat split. Qed.
+
+
+Print Assumptions C05_fault_closing2_partial.
+Print Assumptions C05_fault_closing2_doc_partial.
+Print Assumptions C05_fault_closing2_nested_partial.
+Print Assumptions C05_fault_closing2_delimited_arg_partial.
+Print Assumptions C05_error_propagates2_partial.
+Print Assumptions C05_fault_closing2_doc_ws_partial.
